@@ -36,7 +36,7 @@ type c06Case struct {
 
 var faultableKinds = map[string]bool{"CreateFile": true, "Write": true, "Close": true, "Abort": true, "Update": true, "Tombstone": true}
 
-var errInjected = errors.New("injected store failure")
+var _ = errors.New
 
 func genC06() *rapid.Generator[c06Case] {
 	return rapid.Custom(func(t *rapid.T) c06Case {
